@@ -29,6 +29,105 @@ pub fn run(ctx: &mut Ctx) {
     for case in ctx.cases("plans", 600, true) {
         ctx.run_case("plans", case, random_plans);
     }
+    for case in ctx.cases("wide", 300, true) {
+        ctx.run_case("wide", case, wide_case);
+    }
+}
+
+/// the CNF's (at most 8) variables are spread over up to 200 labels; orders, vtrees, partial
+/// models and dtrees are over the whole label range
+fn wide_case(ctx: &mut Ctx, rng: &mut Rng) {
+    let mut st = style(rng, 20);
+    st.max_vars = st.max_vars.min(8);
+    let cl = random_clauses(&st, rng);
+    let nd = clauses_num_vars(&cl);
+    if nd == 0 {
+        return;
+    }
+    let _g = LabelMapGuard::new(random_label_map(nd, rng));
+    fit_label_map(nd);
+    let map = label_map().unwrap();
+    let cnf = clauses_to_cnf(&cl);
+    let top = cnf.num_vars();
+    let exp = clauses_tt(&cl, nd);
+    let has_empty = cl.iter().any(|c| c.is_empty());
+    let info = json!({"clauses": clauses_json(&cl), "label_of_variable": map, "labels": top});
+    ctx.count("wide_inputs", 1);
+    if top != map[nd - 1] + 1 {
+        ctx.violation("cnf.num_vars", "Cnf::num_vars is not max label + 1", json!({"got": top, "input": info}));
+        return;
+    }
+    // ---- BDD under a random order of all labels
+    let full: Vec<VarLabel> = rng.perm(top).into_iter().map(|x| VarLabel::new(x as u64)).collect();
+    crate::caps::set_unique(Some(64));
+    let builder = rsdd::builder::bdd::RobddBuilder::<rsdd::builder::cache::AllIteTable<BddPtr>>::new(VarOrder::new(&full));
+    crate::caps::set_unique(None);
+    let b = &builder;
+    let mut w = BddWalker::new(nd);
+    let r = b.compile_cnf(&cnf);
+    ctx.count("bdd_compile_cnf", 1);
+    ctx.case_eval(nontrivial_key(&exp, &format!("wide{:?}", map)));
+    if w.tt(r) != exp || w.foreign {
+        ctx.violation("compile.bdd.cnf", "compile_cnf wrong function", json!({"input": info, "expected": exp.hex(), "foreign_variable": w.foreign}));
+        return;
+    }
+    for _ in 0..3 {
+        let k = rng.below(nd + 1);
+        let mut vs = rng.perm(nd);
+        vs.truncate(k);
+        let asg: Vec<(usize, bool)> = vs.into_iter().map(|v| (v, rng.bool())).collect();
+        let lits: Vec<Literal> = asg.iter().map(|(v, p)| Literal::new(lab(*v), *p)).collect();
+        let pm = PartialModel::from_litvec(&lits, top);
+        let a = b.compile_cnf_with_assignments(&cnf, &pm);
+        let c = b.condition_model(r, &pm);
+        let mut e = exp.clone();
+        for (v, p) in &asg {
+            e = e.cofactor(*v, *p);
+        }
+        ctx.count("bdd_compile_with_assignments", 1);
+        if w.tt(a) != e || w.foreign {
+            ctx.violation("compile.bdd.with_assignments", "compile_cnf_with_assignments wrong function", json!({"input": info, "assignment": asg}));
+        } else if a != c {
+            ctx.violation("compile.bdd.with_assignments.ptr", "compile under assignment is not the same diagram as compile then condition", json!({"input": info, "assignment": asg}));
+        }
+    }
+    // ---- dtree, plan, vtree
+    let (oname, eo) = elim_order(&cnf, top, has_empty, rng);
+    let dtree = DTree::from_cnf(&cnf, &eo);
+    let plan = BottomUpPlan::from_dtree(&dtree);
+    let p = b.compile_plan(&plan);
+    ctx.count("bdd_compile_plan", 1);
+    if w.tt(p) != exp || w.foreign {
+        ctx.violation("compile.bdd.plan", "plan from dtree compiles to a wrong function", json!({"input": info, "elim": oname}));
+    } else if p != r {
+        ctx.violation("compile.bdd.plan.ptr", "plan result is not the same diagram as compile_cnf", json!({"input": info, "elim": oname}));
+    }
+    // ---- SDD: a vtree from the dtree (occurring variables only) or a right-linear / balanced
+    // vtree over all labels
+    let (family, vtree) = match rng.below(3) {
+        0 => match VTree::from_dtree(&dtree) {
+            Some(v) => ("from_dtree", v),
+            None => return,
+        },
+        1 => ("right_linear_all_labels", VTree::right_linear(&full)),
+        _ => ("even_split_all_labels", VTree::even_split(&full, if top >= 4 { 2 } else { 0 })),
+    };
+    crate::caps::set_unique(Some(64));
+    let sb = CompressionSddBuilder::new(vtree);
+    crate::caps::set_unique(None);
+    let mut sw = SddWalker::new(nd);
+    let sr = sb.compile_cnf(&cnf);
+    ctx.count("sdd_compile_cnf", 1);
+    ctx.seen("wide_vtree_families", family);
+    if sw.tt(sr) != exp || sw.foreign {
+        ctx.violation("compile.sdd.cnf", "SDD compile_cnf wrong function", json!({"input": info, "family": family, "expected": exp.hex()}));
+    }
+    let sp = sb.compile_plan(&plan);
+    if sw.tt(sp) != exp || sw.foreign {
+        ctx.violation("compile.sdd.plan", "plan from dtree compiles to a wrong function (SDD)", json!({"input": info, "family": family}));
+    } else if !sb.eq(sp, sr) {
+        ctx.violation("compile.sdd.plan.ptr", "plan result is not the same SDD as compile_cnf", json!({"input": info, "family": family}));
+    }
 }
 
 fn style(rng: &mut Rng, max_clauses: usize) -> CnfStyle {
